@@ -11,7 +11,11 @@
      etype  0 u32 (Copy, 4 bytes)  1 String (not Copy, clones not observable)
             2 Ck (not Copy, Clone logs)  3 Zs (Copy, zero-sized: every value reads 0)
      trailing  number of trailing commas (list forms)
-     via    0 written in the harness source, 1 generated program (ignored by the model)
+     via    0 written in the harness source, 1 generated program, 2 generated program whose list
+            elements are distinct fn items coerced to one fn-pointer type, 4 generated program in
+            which the braced length is a const generic parameter of the enclosing fn (all ignored by
+            the model); 3 generated program whose repeat operand is a path to a `const` item of
+            the (non-Copy) element type: the operand is a ConstPath, nothing is logged for it
    element i is an expression that appends i to the log and yields 3 + 7*i.
    obs: Done -> 0 kind(0 GenericArray,1 Box) N::USIZE len values... loglen log...
         (log entry: tag of an evaluated expression, or -1-v for a clone of value v)
@@ -60,11 +64,12 @@ Definition enc_res (etype : Z) (r : mres (value * list lev)) : list Z :=
 
 Definition run_c20 (case : list Z) : list Z :=
   match case with
-  | form :: count :: etype :: trailing :: _ =>
+  | form :: count :: etype :: trailing :: rest =>
+    let via := match rest with v :: _ => v | [] => 0 end in
     let w := world_of etype in
     let isc := (form =? 1) || (form =? 4) || (form =? 5) || (form =? 11) in
     let cx := if isc then Const else Runtime in
-    let x := User 0 (val_of etype 0) isc in
+    let x := if via =? 3 then ConstPath (val_of etype 0) else User 0 (val_of etype 0) isc in
     let lst := InList (elems etype (znat count) isc) (znat trailing) in
     let go m i := enc_res etype (run crate_decls w cx m i) in
     if (form =? 0) || (form =? 1) then go MArr lst
